@@ -12,10 +12,13 @@ TInit == l = 1 /\ viol = {}
 
 TProbe ==
     /\ l <= Len(Rec) /\ R.e = "flags" /\ l' = l + 1
-    /\ LET want == Run(R.order, R.ops) IN
+    /\ LET want == Run(R.order, R.ops, R.kind) IN
        viol' = viol
          \cup Flg(R.r.steps # want.steps, "flag_values_after_delivery")
-         \cup Flg(want.dead /\ R.status # "exited:" \o ToString(R.exit), "wrong_exit_status_or_survived")
+         \cup Flg(want.dead /\ want.how = "exit" /\ R.status # "exited:" \o ToString(R.exit),
+                  "wrong_exit_status_or_survived")
+         \cup Flg(want.dead /\ want.how = "signal" /\ R.status # "signaled:" \o ToString(R.sig),
+                  "conditional_default_did_not_terminate_by_the_signal")
          \cup Flg(want.dead /\ R.r.tokens # << >>, "exit_hooks_ran_on_shutdown")
          \cup Flg(~want.dead /\ (R.status # "exited:42" \/ R.r.tokens # <<"ATEXIT">>),
                   "terminated_although_condition_false")
